@@ -904,6 +904,20 @@ func extractRouting(repo, root string) error {
 	}
 	b.WriteString("/-- protocol/protocol.go (ApiKey).SelectVersion translated statement by statement: `cmin`/`cmax` are\n`k.MinVersion()`/`k.MaxVersion()`, `bmin`/`bmax` the two parameters (the broker's advertised range) -/\n")
 	fmt.Fprintf(&b, "def selectVersionSrc (cmin cmax bmin bmax : Int) : Int :=\n  %s\n\n", sv)
+	b.WriteString("/-- why a leader-routed request is refused -/\ninductive LeaderErr where\n  | noTopic | noPartition | noLeader | mismatch\n  deriving DecidableEq, Repr, Inhabited\n\n")
+	for _, a := range apis {
+		if a.broker != "leaderAll" {
+			continue
+		}
+		ll, err := leaderLoopOf(repo, a.pkg)
+		if err != nil {
+			return err
+		}
+		fmt.Fprintf(&b, "/-- protocol/%s (*Request).Broker, executed symbolically: initial `broker.ID`, the outer prologue (`some e` = the call\nends with e before the partition loop) and one iteration of the partition loop (`cur` = broker.ID so far, `part` = leader id of the\nlooked-up partition, `bro` = id of the looked-up broker) -/\n", a.pkg)
+		fmt.Fprintf(&b, "def leaderInit_%s : Int := %s\n", a.pkg, ll.init)
+		fmt.Fprintf(&b, "def leaderTopic_%s (topicFound : Bool) : Option LeaderErr :=\n  %s\n", a.pkg, ll.outer)
+		fmt.Fprintf(&b, "def leaderStep_%s (cur : Int) (part : Option Int) (bro : Int → Option Int) : Except LeaderErr Int :=\n  %s\n\n", a.pkg, ll.inner)
+	}
 	cmp, err := updateCompare(repo)
 	if err != nil {
 		return err
